@@ -406,6 +406,9 @@ func ruleFollowerApply(c *Ctx) {
 	okSave := newOkEv(fn, "ok(SaveRegion)", callMatcher(saveRegion))
 	put := &calledEv{name: "CheckAndPutRegion", match: instrCallMatcher(checkPut), reset: instrCallMatcher(record)}
 	c.need(rule, fn, "call history.Record", instrCallMatcher(record), []Ev{okSave, put}, all, "a synced region is recorded only after it was put into the cache and saved")
+	// what the follower hands to CheckAndPutRegion reaches the cache unless the epoch check refused it: whatever else
+	// differs (statistics, pending/down peers, buckets of flow the leader chose to broadcast) is taken over
+	ruleCheckedPutApplies(c, rule)
 	// index guards
 	isIdx := func(from Callee) func(ssa.Instruction) bool {
 		return func(x ssa.Instruction) bool {
@@ -1107,4 +1110,21 @@ func ruleBroadcastStartIndex(c *Ctx) {
 	if n == 0 {
 		c.Undec(rule, "StartIndex of the broadcast batch in "+fnName(fn), "found", P.pos(fn.Pos()), "")
 	}
+}
+
+// ruleCheckedPutApplies: CheckAndPutRegion returns without PutRegion only on the path on which PreCheckPutRegion
+// refused the region (stale epoch / term). A region that passed is always put: the follower's (and the loader's)
+// view takes over every field of what the leader sent, not only the ones a shortcut happens to compare.
+func ruleCheckedPutApplies(c *Ctx, rule string) {
+	P := c.P
+	cap := P.Method("server/core", "BasicCluster", "CheckAndPutRegion")
+	pre := F(P.Method("server/core", "BasicCluster", "PreCheckPutRegion"))
+	bcPut := F(P.Method("server/core", "BasicCluster", "PutRegion"))
+	setRegion := F(P.Method("server/core", "RegionsInfo", "SetRegion"))
+	okPre := newOkEv(cap, "ok(PreCheckPutRegion)", callMatcher(pre))
+	put := &calledEv{name: "PutRegion / SetRegion called", match: instrCallMatcher(bcPut, setRegion)}
+	c.need(rule, cap, "return", func(x ssa.Instruction) bool {
+		_, ok := x.(*ssa.Return)
+		return ok
+	}, []Ev{okPre, put}, func(b []bool) bool { return !b[0] || b[1] }, "a region that passed PreCheckPutRegion is put into the cache before CheckAndPutRegion returns (no return between the passed check and the put)")
 }
